@@ -61,6 +61,7 @@ def generate(seed, tier):
         merges = ("optimize", "optimize", "clear", "custom", "default")
         nreaders = mrng.randint(2, 3)
     actors = []
+    schema_run = False
     for wi in range(nwriters):
         txs = []
         for _ in range(mrng.randint(4, 8) if churn else mrng.randint(2, 5)):
@@ -90,6 +91,22 @@ def generate(seed, tier):
                     arg["mask"] = wrng.randrange(1, 256)
                 end = ["commit", arg]
             txs.append({"timeout": 60.0, "delay": wrng.choice((0.0, 0.01, 0.05)) if churn else 0.05, "body": body, "end": end})
+        # schema-changing commits (20% of the runs, first writer): a field is added in one of the later
+        # transactions and the documents after it carry it - a refreshed searcher must see the new schema too
+        srng = random.Random("%s/schema/%d" % (seed, wi))
+        if wi == 0 and len(txs) >= 2 and srng.random() < 0.2:
+            cand = [n for n in ("kw", "n", "so", "tv") if n not in cfg.fields]
+            if cand:
+                nm = srng.choice(cand)
+                ti = srng.randrange(1, len(txs))
+                txs[ti]["body"].insert(0, ["add_field", nm])
+                schema_run = True
+                if srng.random() < 0.7 and txs[ti]["end"][0] == "commit":
+                    txs[ti]["end"] = ["commit", {"merge": "none"}]   # the old segments stay: their readers are recycled
+                for tx in txs[ti:]:
+                    for op in tx["body"]:
+                        if op[0] in ("add", "update") and srng.random() < 0.7:
+                            op[1][nm] = cfg.specs[nm].gen(srng, cfg.ctx())
         actors.append({"kind": "writer", "name": "W%d" % wi, "txs": txs,
                        "own_process": mrng.random() < 0.6})
     for ri in range(nreaders):
@@ -116,6 +133,8 @@ def generate(seed, tier):
                 ops.append(["sleep", wrng.choice((0.01, 0.05, 0.3))])
         if dels:
             ops = [["await"]] + ops
+        if schema_run:
+            ops = ops + [["await"], ["refresh"], ["probe"]] * 3
         if ops[0][0] != "open":
             ops.insert(0, ["open"])
         if wrng.random() < 0.5:
